@@ -2,7 +2,7 @@
    integer label ids; the in-Coq comparison used by the correspondence K_solve.  Definitions only. *)
 From Coq Require Import PrimFloat ZArith List Bool.
 Import ListNotations.
-Require Import PyBase Solver SolverF SolveAll SolveAllSpan.
+Require Import PyBase Solver SolverF SolveAll SolveAllSpan SolveAllPeriod.
 Open Scope Z_scope.
 
 Fixpoint zlookup {A} (x : Z) (l : list (Z * A)) : option A :=
@@ -12,13 +12,15 @@ Fixpoint zlookup {A} (x : Z) (l : list (Z * A)) : option A :=
    method list):
    0 = list / tuple / range (span.index)   1 = NumPy array (the static fallback)
    2 = answers recorded from the run (PeriodIndex: get_loc parses strings, partial dates ...)
-   3 = pandas Index of plain labels (get_loc) *)
+   3 = pandas Index of plain labels (get_loc)
+   4 = quarterly pandas PeriodIndex (SolveAllPeriod.locate_qindex: labels are quarter ordinals, a negative key is a year string) *)
 Definition f_locate (kind : nat) (span : list Z) (tbl : list (Z * locres)) (x : Z) : locres :=
   match kind with
   | O => locate_span SpList span x
   | S O => locate_span SpArray span x
   | S (S O) => match zlookup x tbl with Some r => r | None => LFail end
-  | _ => locate_span SpIndex span x
+  | S (S (S O)) => locate_span SpIndex span x
+  | _ => locate_qindex span x
   end.
 
 Definition f_solve (sc : scripts) (d : mdesc) (o : fopts) (kind : nat) (span : list Z) (tbl : list (Z * locres))
